@@ -977,6 +977,10 @@ BF_gensalt (char subtype, unsigned long count,
 
   BF_encode (&output[7], aligned_rbytes, 16);
   output[7 + 22] = '\0';
+
+  /* Don't leave a copy of the random bytes on the stack; crypt_gensalt_rn
+     wipes its own copy for the same reason.  */
+  explicit_bzero (aligned_rbytes, sizeof aligned_rbytes);
 }
 #endif
 
